@@ -184,6 +184,13 @@ def _oracle_c07_one(tr, put_step, complete_expected=False):
     if complete_expected and not complete:
         raise Failure(f"C07 the transaction of the put at op {puts[0].i} never emitted its EOF although the handler went on to "
                       f"accept the next put request (stream: {[p['kind'] for _, p, _ in em]})")
+    # completeness: Metadata, one tile per call, EOF: after that many empty calls (each fully drained) the EOF must be out
+    ncalls = sum(1 for st in tr.steps if st.tag == 1 and st.i > puts[0].i)
+    need = 2 + (size + seg - 1) // seg
+    last = tr.steps[-1] if tr.steps else None
+    if not complete and ncalls >= need + 1 and last is not None and last.ob["fields"].get("qlen", 0) == 0:
+        raise Failure(f"C07 the stream of the put at op {puts[0].i} is incomplete: no EOF PDU after {ncalls} state-machine calls "
+                      f"(Metadata + {(size + seg - 1) // seg} tiles + EOF need {need}); emitted kinds {[p['kind'] for _, p, _ in em]}")
     exp = expected_tiles(data, 0, size, seg)
     got = [(p["offset"], p["data"]) for _, p, _ in fds]
     if complete and got != exp:
